@@ -67,6 +67,8 @@ class Env(object):
 
   log_yields = None
   log_yield_ok = None
+  log_yield_delay = 0.0
+  log_hook = None          # callable(level, logger, message) run by the log handler (its I/O is a suspension point)
 
   def yielding_logs(self, on=True):
     """Debug logging of the library switched on, through a handler that yields to the loop on every
@@ -75,6 +77,8 @@ class Env(object):
     # optional predicate of the check: False = this record is written without yielding (e.g. the
     # greenlet that logs holds a lock that event-loop callbacks of the library need)
     self.log_yield_ok = None
+    # how long the handler's I/O takes (0 = it only yields)
+    self.log_yield_delay = 0.0
     logging.getLogger('scales').setLevel(logging.DEBUG if on else logging.INFO)
 
   def begin_case(self, rng, idx=None):
@@ -83,6 +87,7 @@ class Env(object):
     self.errors = []
     self.logs = []
     self.yielding_logs(False)
+    self.log_hook = None
     self.clock.wall_offset = 0.0
     self.case_rng = rng
     # scales uses the global ``random`` (heap re-insertion, aperture choice,
@@ -114,6 +119,8 @@ class _LogTap(logging.Handler):
     except Exception:
       msg = str(record.msg)
     self.env.logs.append((record.levelname, record.name, msg))
+    if self.env.log_hook is not None:
+      self.env.log_hook(record.levelname, record.name, msg)
     if self.env.log_yields is not None:
       # a log handler doing cooperative I/O (socket / syslog handler under gevent): the greenlet
       # that logs is suspended and everything else that is runnable goes first
@@ -122,7 +129,7 @@ class _LogTap(logging.Handler):
       ok = self.env.log_yield_ok
       if cur is not gevent.get_hub() and (ok is None or ok()):
         self.env.log_yields += 1
-        gevent.sleep(0)
+        gevent.sleep(self.env.log_yield_delay)
 
 
 def repo_root():
